@@ -74,6 +74,17 @@ def fromU32 (x : Nat) : Option (List Nat) :=
 /-- `From<char>`: `SmtString::from(x as u32)` -/
 def fromChar (x : Nat) : Option (List Nat) := fromU32 x
 
+/-! ### conversion to a Rust `String` (`is_unicode`, `to_unicode_string`) -/
+
+/-- `all_unicode` behind `SmtString::is_unicode`: `v.iter().all(|&x| char::from_u32(x).is_some())` -/
+def isUnicode (s : List Nat) : Bool := s.all (fun x => decide (Scalar x))
+
+/-- `map_to_unicode` behind `SmtString::to_unicode_string`:
+    `v.iter().map(|&x| char::from_u32(x).unwrap_or(char::REPLACEMENT_CHARACTER)).collect()`;
+    the result is the sequence of `chars()` of the returned `String` -/
+def toUnicodeString (s : List Nat) : List Nat :=
+  s.map (fun x => if Scalar x then x else REPLACEMENT_CHAR)
+
 /-! ### the literal parser -/
 
 inductive State where
